@@ -7,6 +7,7 @@ import os
 import queue
 import signal
 import tempfile
+import zlib
 from contextlib import ExitStack, contextmanager, nullcontext
 from pathlib import Path
 from pickle import PicklingError
@@ -139,6 +140,10 @@ def _generate_memmap_filenames(
 ) -> list[str]:
     """Generate new memory-map filenames."""
     key_str = _get_valid_filename(str(key))
+    if key_str != str(key):
+        # Keys which differ only in characters which are not valid in filenames would
+        # otherwise be mapped to the same file: append checksum of original key
+        key_str += f"-{zlib.crc32(str(key).encode()):08x}"
     dir_path = Path(dir_path)
     return [dir_path / f"{prefix}_{index}_{key_str}.npy" for index in indices]
 
